@@ -1,6 +1,97 @@
 import PdeVerif.Json
+import PdeVerif.Model.Interp
 namespace PdeVerif.Drv.C16
-open Lean PdeVerif
+open Lean PdeVerif PdeVerif.Interp
 
-def handlers : List (String × Handler) := []
+def getAxis (j : Json) : Except String (Axis Rat) := do
+  pure { size := (← fldI j "size"), periodic := (← fldB j "periodic"),
+         lo := (← fldQ j "lo"), dx := (← fldQ j "dx") }
+
+def fldAxes (j : Json) (k : String) : Except String (List (Axis Rat)) := do
+  getL getAxis (← fld j k)
+
+/-- C-order flat position of an index tuple, `none` when out of range -/
+def flatPos : List Int → Idx → Option Nat
+  | [], [] => some 0
+  | n :: ns, c :: cs =>
+    if 0 ≤ c ∧ c < n then
+      match flatPos ns cs with
+      | some r => some (c.toNat * (ns.foldl (fun a b => a * b.toNat) 1) + r)
+      | none => none
+    else none
+  | _, _ => none
+
+/-- array as a total function; reads outside the array give a huge marker value so that a wrong
+index in the model cannot go unnoticed -/
+def arrFn (shape : List Int) (flat : Array Rat) : Idx → Rat :=
+  fun c => match flatPos shape c with
+    | some p => flat.getD p (10 ^ 40 : Rat)
+    | none => (10 ^ 40 : Rat)
+
+def jOptQ : Option Rat → Json
+  | none => Json.null
+  | some q => jQ q
+
+def jAxisData : Option (AxisData Rat) → Json
+  | none => Json.null
+  | some a => Json.arr #[jI a.li, jI a.hi, jQ a.wl, jQ a.wh]
+
+/-- {"eps","ghost","cc","axis":{..},"coords":[..]} -> per coordinate null | [li,hi,wl,wh] -/
+def axis (j : Json) : Except String Json := do
+  let eps ← fldQ j "eps"
+  let ghost ← fldB j "ghost"
+  let cc ← fldB j "cc"
+  let ax ← getAxis (← fld j "axis")
+  let cs ← fldQs j "coords"
+  pure (Json.arr (cs.map (fun c => jAxisData (axisData eps ghost cc ax c))).toArray)
+
+/-- {"eps","ghost","cc","fill":null|[per component],"axes":[..],"shape":[..],
+"data":[[flat component]..],"points":[[..]..]} -> per point, per component: value | null -/
+def interp (j : Json) : Except String Json := do
+  let eps ← fldQ j "eps"
+  let ghost ← fldB j "ghost"
+  let cc ← fldB j "cc"
+  let axes ← fldAxes j "axes"
+  let shape ← fldIs j "shape"
+  let comps ← getL (getL getQ) (← fld j "data")
+  let fills : List (Option Rat) ← (match fldOpt j "fill" with
+    | some .null | none => pure (comps.map (fun _ => none))
+    | some v => do pure ((← getL getQ v).map some))
+  let pts ← getL (getL getQ) (← fld j "points")
+  let fns := comps.map (fun c => arrFn shape c.toArray)
+  let out := pts.map (fun p =>
+    Json.arr ((fns.zip fills).map (fun (f, fl) => jOptQ (interpN eps ghost cc fl axes f p))).toArray)
+  pure (Json.arr out.toArray)
+
+/-- {"kind":"interp"|"comp","eps","ghost","axes","vol":[flat],"data":[[flat component]..],"point":[..],
+"amount":[per component]} -> per component: null (DomainError) | {"data":[flat],"before":integral,
+"after":integral}; with "ghost":true (compiled inserter only) "data" is the padded array and the
+integrals are taken over its valid cells -/
+def insert (j : Json) : Except String Json := do
+  let kind ← fldS j "kind"
+  let eps ← fldQ j "eps"
+  let ghost ← fldB j "ghost"
+  let axes ← fldAxes j "axes"
+  let sizes := axes.map (·.size)
+  -- in ghost mode the data array is the padded one, the volumes are those of the valid cells
+  let shape := if ghost then sizes.map (· + 2) else sizes
+  let vol := arrFn sizes (← fldQs j "vol").toArray
+  let comps ← getL (getL getQ) (← fld j "data")
+  let p ← fldQs j "point"
+  let amounts ← fldQs j "amount"
+  let inner : (Idx → Rat) → Idx → Rat := fun f c => if ghost then f (c.map (· + 1)) else f c
+  let one : List Rat × Rat → Json := fun (flat, amount) =>
+    let data := arrFn shape flat.toArray
+    let r : Option (Idx → Rat) :=
+      if kind == "interp" then insertInterp axes vol data p amount
+      else insertCompN eps ghost axes vol data p amount
+    match r with
+    | none => Json.null
+    | some d =>
+      Json.mkObj [("data", jQs ((cells shape).map d)),
+        ("before", jQ (integral sizes vol (inner data))), ("after", jQ (integral sizes vol (inner d)))]
+  pure (Json.arr ((comps.zip amounts).map one).toArray)
+
+def handlers : List (String × Handler) :=
+  [("c16.axis", axis), ("c16.interp", interp), ("c16.insert", insert)]
 end PdeVerif.Drv.C16
